@@ -190,6 +190,17 @@ CHECKS = {
                      "the session-id format for 2000 counters.",
                 ref="4 C16", note=BASE_NOTE + "; line-boundary preemption is assumed possible (section 1.4 of "
                 "DESIGN.md); the scheduler's own locks replace the generator's lock instances."),
+    "C15": dict(cat="exploration", tech="line-gated deterministic scheduler over the real queueing threads, the "
+                "connection's real writer thread and the node's real I/O loop (choice points found from the source "
+                "text), scripted partial writes / soft errors, byte-stream oracle; free-running stress with yields",
+                text="Scenarios: 2..3 messages from 1..2 queueing threads, write plans {accept all, 5-byte partial "
+                     "write, three 1-byte writes, EAGAIN, ENOBUFS + partial + EINTR}, with and without an unencodable "
+                     "message; every interleaving with <= 2 preemptions (thorough 3) is executed once, the evidence "
+                     "says per scenario whether the space was exhausted. The oracle: bytes accepted by send() == "
+                     "concatenation of the queued messages in the order of their add_out_msg steps. Stress: 18 "
+                     "messages from 3 threads per run, random write plans, seeded yields; frames carry unique ids.",
+                ref="4 C15", note=NODE_NOTE + "; line-boundary preemption assumed possible; select() and an empty "
+                "queue are 'blocked until ready' for the scheduler."),
 }
 
 NOT_YET = "check not built yet in this round (planned in DESIGN.md section 4); no claim is made"
